@@ -904,13 +904,16 @@ func main() {
 			// with --types dynamic.
 			dynamic := []string{"--types", "dynamic"}
 
+			// A file gets "@entrypoint main" appended by the command, which
+			// hides a crash at the very end of the text; piped source without
+			// func main gets nothing appended, like the run endpoint.
 			switch {
 			case c.Kind == "router_panic":
-				attempts = []attempt{{drvRun, nil}, {drvRun, dynamic}}
+				attempts = []attempt{{drvRun, nil}, {drvPipe, nil}, {drvRun, dynamic}}
 			case driver == drvSrv:
-				attempts = []attempt{{drvRun, nil}, {drvSrv, nil}, {drvRun, dynamic}}
+				attempts = []attempt{{drvRun, nil}, {drvPipe, nil}, {drvSrv, nil}, {drvRun, dynamic}}
 			case driver == drvRepl:
-				attempts = []attempt{{drvRun, nil}, {drvRepl, nil}}
+				attempts = []attempt{{drvRun, nil}, {drvPipe, nil}, {drvRepl, nil}}
 			default:
 				attempts = []attempt{{driver, nil}}
 			}
